@@ -5,7 +5,10 @@
    traversed_bytes/traversed_chars, the comment-leader line loops, the ignore markers and the shebang line, Go directives, the
    Literate Haskell masker, the git-commit cut).  WHICH nodes/events are prose is decided by third-party parsers and is reached by
    the constructed-ground-truth search of harness/src/bin/c04.rs, not by these theorems. *)
-Require Import Base Mask MaskProofs MaskFrontends Tables_masks C04JavaDoc C04JavaDocProofs.
+Require Import Base Mask MaskProofs MaskFrontends Tables_masks C04JavaDoc C04JavaDocProofs C04Typst C04TypstProofs Tables_typst.
+From Coq Require String.
+Import String.StringSyntax.
+Delimit Scope string_scope with string.
 
 (* ---- UTF-8: encode/decode round trip; char count; a byte offset on a char boundary is the byte
         length of a prefix of the text, and the char index computed by counting is that prefix's length *)
@@ -610,6 +613,54 @@ Check C04_jsdoc_offsets : forall (is_whitespace : N -> bool) (inner : text -> li
                     (tkind tk = K_NEWLINE1 /\ send (tspan tk) = sstart (tspan tk) + 1 /\ send (tspan tk) <= length src)) toks.
 Print Assumptions C04_jsdoc_offsets.
 
+(* ---- Typst translator (phase 3), over the abstract tree of Model/C04Typst.v.  From any cursor that is consistent (char =
+   chars before byte) and any node whose reported ranges satisfy the contract tn_ok (ordered, on char boundaries, not
+   before the expression they are visited from; unwrapped sub-nodes have a range; a Str's raw text has its two quote
+   bytes — monitored on every tree the harness dumps) the translation never panics and equals the CURSOR-FREE
+   function tr_spec: a token!(..) token spans exactly [chars before range.start, chars before range.end) of the node it
+   came from; the tokens of a Text node are PlainEnglish's tokens of text.get() shifted by the chars before
+   range.start; those of a Str node PlainEnglish's tokens of the RAW text between the quotes shifted by the chars before
+   range.start + 1 (the opening quote) — raw, not escape-resolved: seed c04-3 lexes text.get() instead and disagrees *)
+Theorem C04_typst_node_exact : forall (lex : text -> list tok) (bs : list N) n off,
+  cur_ok bs off -> tn_ok bs (cbyte off) n -> tr lex bs n off = Ok (tr_spec lex bs n).
+Proof. exact tr_exact. Qed.
+Check C04_typst_node_exact : forall (lex : text -> list tok) (bs : list N) n off,
+  cur_ok bs off -> tn_ok bs (cbyte off) n -> tr lex bs n off = Ok (tr_spec lex bs n).
+Print Assumptions C04_typst_node_exact.
+
+(* ---- ... hence the whole Typst::parse (every top-level expression from OffsetCursor::new) *)
+Theorem C04_typst_exact : forall (lex : text -> list tok) (bs : list N) top,
+  top_ok bs top -> typst_parse lex bs top = Ok (flat_map (tr_spec lex bs) top).
+Proof. exact typst_parse_exact. Qed.
+Check C04_typst_exact : forall (lex : text -> list tok) (bs : list N) top,
+  top_ok bs top -> typst_parse lex bs top = Ok (flat_map (tr_spec lex bs) top).
+Print Assumptions C04_typst_exact.
+
+(* ---- ... and the char span [chars before a, chars before b) denotes exactly the text of the byte range [a, b) typst-syntax
+   reported, whatever multi-byte text precedes (the first chars-before-a characters are exactly the bytes before a) *)
+Theorem C04_typst_range_denotes : forall (t : text) a b, Forall valid_char t -> a <= b ->
+  is_boundary (encode t) a = true -> is_boundary (encode t) b = true ->
+  char_index (encode t) a <= char_index (encode t) b <= length t /\
+  encode (slice t (char_index (encode t) a) (char_index (encode t) b)) = slice (encode t) a b /\
+  encode (firstn (char_index (encode t) a) t) = firstn a (encode t).
+Proof. exact typst_leaf_denotes. Qed.
+Check C04_typst_range_denotes : forall (t : text) a b, Forall valid_char t -> a <= b ->
+  is_boundary (encode t) a = true -> is_boundary (encode t) b = true ->
+  char_index (encode t) a <= char_index (encode t) b <= length t /\
+  encode (slice t (char_index (encode t) a) (char_index (encode t) b)) = slice (encode t) a b /\
+  encode (firstn (char_index (encode t) a) t) = firstn a (encode t).
+Print Assumptions C04_typst_range_denotes.
+
+(* ---- which arms of parse_expr hand text to PlainEnglish: in the table GENERATED from typst_translator.rs's match arms
+   (typst.py raises on a new, vanished or reclassified arm) exactly Expr::Text and Expr::Str (FC04e: string literals
+   are linted by design); the other 27 arms emit tokens over node ranges or recurse, everything else is Unlintable *)
+Theorem C04_typst_prose_arms : map fst (filter (fun p => is_prose_arm (snd p)) typst_arms) = ["Text"%string; "Str"%string] /\
+  List.length typst_arms = 29.
+Proof. exact typst_prose_arms. Qed.
+Check C04_typst_prose_arms : map fst (filter (fun p => is_prose_arm (snd p)) typst_arms) = ["Text"%string; "Str"%string] /\
+  List.length typst_arms = 29.
+Print Assumptions C04_typst_prose_arms.
+
 (* ---- non-vacuity ---- *)
 (* "é😀 a//b": two multi-byte chars, then a 'comment' at bytes 9..10 *)
 Example C04_utf8_nonvacuous :
@@ -747,3 +798,20 @@ Example C04_javadoc_nonvacuous :
   = Ok [T 0 3 5; T 3 4 2001; T 4 5 2; T 5 6 2; T 6 10 2; T 10 11 2; T 11 12 2; T 12 13 2; T 13 14 2001;
         T 14 15 2; T 15 22 2; T 22 23 2; T 23 24 2]%N.
 Proof. vm_compute. repeat split; reflexivity. Qed.
+
+(* Typst: an e-acute, a blank, #text(..) with a string argument that contains an escaped quote, a blank, an equation:
+   Text, a call (callee Unlintable) with a Str argument, a space, an equation through the default arm, a detached
+   node; the contract holds and the tokens sit at the true char offsets *)
+Example C04_typst_nonvacuous :
+  let lex := fun c : text => [mktok (mkspan 0 (length c)) 5%N] in
+  let src := [233; 32; 35; 116; 101; 120; 116; 40; 34; 97; 92; 34; 98; 34; 41; 32; 36; 120; 36]%N in
+  let top := [TText (Some (0, 3)) [233; 32]%N;
+              TNode (Some (4, 16)) [TTok (Some (4, 8)) 2%N; TStr (Some (9, 15)) [34; 97; 92; 34; 98; 34]%N];
+              TLeaf (Some (16, 17)) 2001%N; TLeaf (Some (17, 20)) 2%N; TLeaf None 2%N] in
+  top_ok (encode src) top /\
+  typst_parse lex (encode src) top
+  = Ok [mktok (mkspan 0 2) 5%N; mktok (mkspan 3 7) 2%N; mktok (mkspan 9 13) 5%N; mktok (mkspan 15 16) 2001%N; mktok (mkspan 16 19) 2%N] /\
+  (* an unwrapped detached span panics, a range off a char boundary panics *)
+  typst_parse lex (encode src) [TNode (Some (4, 16)) [TTok None 2%N]] = Panic PUnwrap /\
+  typst_parse lex (encode src) [TLeaf (Some (1, 3)) 2%N] = Panic PUnwrap.
+Proof. exact (conj (proj1 typst_translate_example) (conj (proj2 typst_translate_example) (conj eq_refl eq_refl))). Qed.
